@@ -47,6 +47,9 @@ Proof.
   induction l as [|x l IH]; intros H; cbn; [reflexivity|]. rewrite (H x) by (left; auto). f_equal. apply IH. intros; apply H; right; auto.
 Qed.
 
+Lemma filter_all_false_ {A} (p : A -> bool) l : (forall x, In x l -> p x = false) -> filter p l = [].
+Proof. induction l as [|x l IH]; intros H; cbn; [reflexivity|]. rewrite (H x) by (left; auto). apply IH. intros; apply H; right; auto. Qed.
+
 Lemma remove_filter f r : wf r -> remove f r = filter (fun kv => negb (beqb f (fst kv))) r.
 Proof.
   induction r as [|[k v] r IH]; intros Hwf; cbn; [reflexivity|].
@@ -620,4 +623,399 @@ Proof.
   exists (B "a"), [(B "a", B "1"); (B "b", B "2")]. split.
   - apply wf_iff. vm_compute. reflexivity.
   - vm_compute. discriminate.
+Qed.
+
+(* ------------------------------------------------------------------ reshape wide-to-long then long-to-wide (one record) *)
+Definition w2l_pairs (ins : list bytes) (r : record) : record :=
+  fold_left (fun p f => match get f r with Some v => put f v p | None => p end) ins [].
+Definition w2l_others (ins : list bytes) (r : record) : record :=
+  fold_left (fun o kv => remove (fst kv) o) (w2l_pairs ins r) r.
+
+Lemma put_absent k v r : ~ In k (keys r) -> put k v r = r ++ [(k, v)].
+Proof.
+  induction r as [|[k' v'] r IH]; cbn; intros H; [reflexivity|].
+  destruct (beqb_spec k k') as [->|Hne]; [exfalso; apply H; left; reflexivity|]. f_equal. apply IH. tauto.
+Qed.
+
+Lemma get_app k a b : get k (a ++ b) = match get k a with Some v => Some v | None => get k b end.
+Proof. induction a as [|[k' v'] a IH]; cbn; [reflexivity|]. destruct (beqb k k'); auto. Qed.
+
+Lemma remove_app_absent k a b : ~ In k (keys a) -> remove k (a ++ b) = a ++ remove k b.
+Proof.
+  induction a as [|[k' v'] a IH]; cbn; intros H; [reflexivity|].
+  destruct (beqb_spec k k') as [->|Hne]; [exfalso; apply H; left; reflexivity|]. f_equal. apply IH. tauto.
+Qed.
+
+Lemma keys_remove_incl k k' r : In k (keys (remove k' r)) -> In k (keys r).
+Proof.
+  induction r as [|[k2 v2] r IH]; cbn; [auto|]. destruct (beqb k' k2); cbn; [auto|]. intros [H|H]; auto.
+Qed.
+
+Lemma keys_fold_remove_incl k (ps : record) r : In k (keys (fold_left (fun o kv => remove (fst kv) o) ps r)) -> In k (keys r).
+Proof.
+  revert r. induction ps as [|p ps IH]; intros r; cbn; [auto|]. intros H. apply IH in H. eapply keys_remove_incl; eauto.
+Qed.
+
+Lemma wf_put k v r : wf r -> wf (put k v r).
+Proof.
+  intros H. unfold wf. destruct (has k r) eqn:E.
+  - rewrite keys_put_present; auto.
+  - rewrite keys_put_absent by auto. apply NoDup_snoc; auto. intros Hin. apply has_true_in in Hin. congruence.
+Qed.
+
+Lemma wf_w2l_pairs ins r : wf (w2l_pairs ins r).
+Proof.
+  unfold w2l_pairs. assert (G : forall acc, wf acc -> wf (fold_left (fun p f => match get f r with Some v => put f v p | None => p end) ins acc)).
+  { induction ins as [|f ins IH]; intros acc H; cbn; [auto|]. apply IH. destruct (get f r); [apply wf_put|]; auto. }
+  apply G. constructor.
+Qed.
+
+Lemma wf_remove k r : wf r -> wf (remove k r) /\ ~ In k (keys (remove k r)).
+Proof.
+  unfold wf. induction r as [|[k' v'] r IH]; cbn; intros H; [split; [constructor|tauto]|].
+  inversion H as [|? ? Hni Hnd]; subst. destruct (beqb_spec k k') as [->|Hne]; cbn.
+  - split; auto.
+  - destruct (IH Hnd) as [H1 H2]. split.
+    + constructor; auto. intros Hin. apply Hni. eapply keys_remove_incl; eauto.
+    + intros [E|Hin]; [congruence|tauto].
+Qed.
+
+Lemma fold_remove_absent (ps : record) : forall r, wf r ->
+  wf (fold_left (fun o kv => remove (fst kv) o) ps r)
+  /\ forall k, In k (keys ps) -> ~ In k (keys (fold_left (fun o kv => remove (fst kv) o) ps r)).
+Proof.
+  induction ps as [|[k0 v0] ps IH]; intros r Hwf; cbn [fold_left]; [split; [auto|intros k []]|].
+  destruct (wf_remove k0 r Hwf) as [H1 H2]. destruct (IH _ H1) as [H3 H4]. split; [auto|].
+  intros k [<-|Hin]; [|auto]. cbn [fst]. intros Hin. apply keys_fold_remove_incl in Hin. contradiction.
+Qed.
+
+(* putting fields with fresh, pairwise distinct names appends them in order *)
+Lemma fold_put_appends (ps : record) : forall acc,
+  wf ps -> (forall k, In k (keys ps) -> ~ In k (keys acc)) ->
+  fold_left (fun o kv => put (fst kv) (snd kv) o) ps acc = acc ++ ps.
+Proof.
+  induction ps as [|[k v] ps IH]; intros acc Hwf Hfresh; cbn [fold_left]; [now rewrite app_nil_r|].
+  cbn [fst snd]. rewrite put_absent by (apply Hfresh; left; reflexivity).
+  rewrite IH; [now rewrite <- app_assoc|eapply wf_tail; eauto|].
+  intros k' Hk'. unfold keys. rewrite map_app, in_app_iff. cbn. intros [H|[H|[]]].
+  - apply (Hfresh k'); [right; exact Hk'|exact H].
+  - subst. apply (wf_head_notin _ _ _ Hwf). exact Hk'.
+Qed.
+
+Section Roundtrip.
+  Variables (ko vo : bytes) (others : record).
+  Hypothesis Hko : ~ In ko (keys others).
+  Hypothesis Hvo : ~ In vo (keys others).
+  Hypothesis Hne : ko <> vo.
+
+  Definition long_row (kv : field) : record := put vo (snd kv) (put ko (fst kv) others).
+
+  Lemma long_row_shape kv : long_row kv = others ++ [(ko, fst kv); (vo, snd kv)].
+  Proof.
+    unfold long_row. rewrite (put_absent ko) by auto. rewrite put_absent.
+    - now rewrite <- app_assoc.
+    - unfold keys. rewrite map_app, in_app_iff. cbn. intros [H|[H|[]]]; [tauto|congruence].
+  Qed.
+
+  Lemma long_row_get kv : get ko (long_row kv) = Some (fst kv) /\ get vo (long_row kv) = Some (snd kv)
+                          /\ remove vo (remove ko (long_row kv)) = others.
+  Proof.
+    rewrite long_row_shape. rewrite !get_app.
+    rewrite (proj2 (get_None_notin ko others) Hko), (proj2 (get_None_notin vo others) Hvo). cbn.
+    rewrite !beqb_refl. destruct (beqb_spec vo ko) as [E|_]; [congruence|].
+    split; [reflexivity|]. split; [reflexivity|].
+    rewrite remove_app_absent by auto. cbn. rewrite beqb_refl. rewrite remove_app_absent by auto. cbn. rewrite beqb_refl.
+    now rewrite app_nil_r.
+  Qed.
+
+  Lemma l2w_same_bucket ps : forall acc,
+    l2w_from ko vo [(joinc (keys others), [(joinc (values others), (others, acc))])] (map long_row ps)
+    = ([], [(joinc (keys others), [(joinc (values others), (others, fold_left (fun a kv => put (fst kv) (snd kv) a) ps acc))])]).
+  Proof.
+    induction ps as [|kv ps IH]; intros acc; cbn [map l2w_from fold_left]; [reflexivity|].
+    destruct (long_row_get kv) as (G1 & G2 & G3). rewrite G1, G2, G3. cbn [upd1 upd2]. rewrite !beqb_refl. apply IH.
+  Qed.
+
+  Lemma l2w_rows ps : ps <> [] ->
+    reshape_l2w ko vo (map long_row ps)
+    = [fold_left (fun o kv => put (fst kv) (snd kv) o) (fold_left (fun a kv => put (fst kv) (snd kv) a) ps []) others].
+  Proof.
+    destruct ps as [|kv ps]; [congruence|]. intros _. unfold reshape_l2w. cbn [map l2w_from].
+    destruct (long_row_get kv) as (G1 & G2 & G3). rewrite G1, G2, G3. cbn [upd1 upd2].
+    pose proof (l2w_same_bucket ps (put (fst kv) (snd kv) [])) as X.
+    match goal with |- context [l2w_from ?a ?b ?c ?d] =>
+      match type of X with _ = ?rhs => assert (Y : l2w_from a b c d = rhs) by exact X end end.
+    rewrite Y. reflexivity.
+  Qed.
+End Roundtrip.
+
+Theorem reshape_w2l_l2w ins ko vo r :
+  wf r -> ~ In ko (keys r) -> ~ In vo (keys r) -> ko <> vo -> w2l_pairs ins r <> [] ->
+  reshape_l2w ko vo (reshape_w2l ins ko vo r) = [w2l_others ins r ++ w2l_pairs ins r].
+Proof.
+  intros Hwf Hko Hvo Hne Hp. unfold reshape_w2l. fold (w2l_pairs ins r). fold (w2l_others ins r).
+  destruct (w2l_pairs ins r) as [|p ps] eqn:E; [congruence|]. rewrite <- E in *.
+  assert (Hko' : ~ In ko (keys (w2l_others ins r))) by (intros H; apply Hko; eapply keys_fold_remove_incl; eauto).
+  assert (Hvo' : ~ In vo (keys (w2l_others ins r))) by (intros H; apply Hvo; eapply keys_fold_remove_incl; eauto).
+  change (map (fun kv => put vo (snd kv) (put ko (fst kv) (w2l_others ins r))) (w2l_pairs ins r))
+    with (map (long_row ko vo (w2l_others ins r)) (w2l_pairs ins r)).
+  rewrite l2w_rows by auto. f_equal.
+  pose proof (wf_w2l_pairs ins r) as Hwp.
+  rewrite (fold_put_appends (w2l_pairs ins r) []) by (auto; intros k _ []). cbn [app].
+  apply fold_put_appends; [exact Hwp|].
+  intros k Hk. unfold w2l_others. apply (proj2 (fold_remove_absent (w2l_pairs ins r) r Hwf)). exact Hk.
+Qed.
+
+(* ------------------------------------------------------------------ template *)
+Lemma template_get fs fill r k : get k (template fs fill r) = if mem k fs then Some (getd k r fill) else None.
+Proof.
+  unfold template.
+  assert (G : forall out, get k (fold_left (fun out f => put f (getd f r fill) out) fs out)
+                          = if mem k fs then Some (getd k r fill) else get k out).
+  { induction fs as [|f fs IH]; intros out; cbn [fold_left]; [reflexivity|].
+    rewrite IH. rewrite mem_cons. destruct (beqb_spec k f) as [->|Hne]; cbn.
+    - rewrite get_put_same. destruct (mem f fs); reflexivity.
+    - rewrite get_put_other by congruence. reflexivity. }
+  rewrite G. destruct (mem k fs); reflexivity.
+Qed.
+
+Lemma template_keys fs fill r : keys (template fs fill r) = first_seen fs.
+Proof.
+  unfold template, first_seen.
+  assert (G : forall out, keys (fold_left (fun out f => put f (getd f r fill) out) fs out)
+                          = fold_left (fun s k => if mem k s then s else s ++ [k]) fs (keys out)).
+  { induction fs as [|f fs IH]; intros out; cbn [fold_left]; [reflexivity|]. rewrite IH. f_equal.
+    destruct (has f out) eqn:E.
+    - rewrite keys_put_present by auto. apply has_true_in, mem_In in E. now rewrite E.
+    - rewrite keys_put_absent by auto. destruct (mem f (keys out)) eqn:M; [|reflexivity].
+      apply mem_In, has_true_in in M. congruence. }
+  apply G.
+Qed.
+
+(* ------------------------------------------------------------------ label *)
+Lemma label_zip_spec names : forall r out,
+  NoDup names -> (forall n, In n names -> ~ In n (keys out)) ->
+  let k := Nat.min (List.length names) (List.length r) in
+  label_zip names r out = (out ++ combine (firstn k names) (values (firstn k r)), skipn k r).
+Proof.
+  induction names as [|n names IH]; intros r out Hnd Hfresh; cbn [label_zip].
+  - cbn. now rewrite app_nil_r.
+  - destruct r as [|[k0 v0] r]; [cbn; now rewrite app_nil_r|].
+    inversion Hnd as [|? ? Hni Hnd']; subst.
+    rewrite put_absent by (apply Hfresh; left; reflexivity).
+    rewrite IH; auto.
+    + cbn [List.length Nat.min firstn skipn values map combine snd]. now rewrite <- app_assoc.
+    + intros m Hm. unfold keys. rewrite map_app, in_app_iff. cbn. intros [H|[H|[]]].
+      * apply (Hfresh m); [right; exact Hm|exact H].
+      * subst. contradiction.
+Qed.
+
+Lemma label_rest_spec (rest : record) : forall out,
+  wf rest ->
+  fold_left (fun out kv => if has (fst kv) out then out else put (fst kv) (snd kv) out) rest out
+  = out ++ filter (fun kv => negb (mem (fst kv) (keys out))) rest.
+Proof.
+  induction rest as [|[k v] rest IH]; intros out Hwf; cbn [fold_left filter]; [now rewrite app_nil_r|].
+  cbn [fst snd]. destruct (has k out) eqn:E.
+  - assert (M : mem k (keys out) = true) by (apply mem_In, has_true_in; exact E). rewrite M. cbn. apply IH. eapply wf_tail; eauto.
+  - assert (M : mem k (keys out) = false).
+    { destruct (mem k (keys out)) eqn:M; [|reflexivity]. apply mem_In, has_true_in in M. congruence. }
+    rewrite M. cbn. rewrite put_absent by (apply has_false_notin; exact E).
+    rewrite IH by (eapply wf_tail; eauto). rewrite <- app_assoc. cbn. f_equal. f_equal.
+    apply filter_ext_in. intros [k' v'] Hin. cbn. unfold keys. rewrite map_app. cbn.
+    unfold mem. rewrite existsb_app. cbn. rewrite orb_false_r.
+    destruct (beqb_spec k' k) as [->|]; [|now rewrite orb_false_r].
+    exfalso. apply (wf_head_notin _ _ _ Hwf). apply (in_map fst) in Hin. exact Hin.
+Qed.
+
+Lemma wf_skipn n r : wf r -> wf (skipn n r).
+Proof.
+  revert r. induction n as [|n IH]; intros r H; cbn; [auto|]. destruct r; [auto|]. apply IH. eapply wf_tail; eauto.
+Qed.
+
+Theorem label_spec names r :
+  NoDup names -> wf r ->
+  let k := Nat.min (List.length names) (List.length r) in
+  label names r = combine (firstn k names) (values (firstn k r))
+                  ++ filter (fun kv => negb (mem (fst kv) (firstn k names))) (skipn k r).
+Proof.
+  intros Hnd Hwf k. unfold label.
+  pose proof (label_zip_spec names r [] Hnd (fun _ _ H => H)) as Z. cbn zeta in Z. fold k in Z. rewrite Z. cbn [app].
+  rewrite label_rest_spec by (apply wf_skipn; auto). f_equal. apply filter_ext. intros [k0 v0]. cbn. f_equal. f_equal.
+  assert (L : List.length (firstn k names) = List.length (values (firstn k r))).
+  { unfold values. rewrite map_length, !firstn_length. unfold k. lia. }
+  clear - L. unfold keys. revert L. generalize (values (firstn k r)) as vs. generalize (firstn k names) as ns.
+  induction ns as [|n ns IH]; intros [|v vs] L; cbn in *; try discriminate; [reflexivity|]. f_equal. apply IH. lia.
+Qed.
+
+(* ------------------------------------------------------------------ nest explode / implode across fields *)
+Lemma explode_fields_shape f sep pre v post :
+  ~ In f (keys pre) -> explode_fields f sep (pre ++ (f, v) :: post) = pre ++ number_from f 1 (split1 sep v) ++ post.
+Proof.
+  induction pre as [|[k x] pre IH]; cbn; intros H.
+  - now rewrite beqb_refl.
+  - destruct (beqb_spec f k) as [->|Hne]; [exfalso; apply H; left; reflexivity|]. f_equal. apply IH. tauto.
+Qed.
+
+Lemma explode_fields_absent f sep r : ~ In f (keys r) -> explode_fields f sep r = r.
+Proof.
+  induction r as [|[k x] r IH]; cbn; intros H; [reflexivity|].
+  destruct (beqb_spec f k) as [->|Hne]; [exfalso; apply H; left; reflexivity|]. f_equal. apply IH. tauto.
+Qed.
+
+Lemma is_digit_digit_of d : (d < 10)%N -> is_digit (digit_of d) = true.
+Proof.
+  intros H. unfold is_digit, in_range, cle, code, digit_of. rewrite N_ascii_embedding by lia.
+  change (N_of_ascii "0") with 48%N. change (N_of_ascii "9") with 57%N.
+  apply andb_true_iff. split; apply N.leb_le; lia.
+Qed.
+
+Lemma dec_fuel_digits fuel : forall n acc,
+  forallb is_digit acc = true -> forallb is_digit (dec_fuel fuel n acc) = true.
+Proof.
+  induction fuel as [|fuel IH]; intros n acc H; cbn [dec_fuel]; [exact H|].
+  assert (H' : forallb is_digit (digit_of (n mod 10) :: acc) = true).
+  { cbn [forallb]. rewrite H, andb_true_r. apply is_digit_digit_of. apply N.mod_lt. lia. }
+  destruct (n / 10 =? 0)%N; [exact H'|]. apply IH. exact H'.
+Qed.
+
+Lemma dec_fuel_nonempty fuel : forall n acc, acc <> [] -> dec_fuel fuel n acc <> [].
+Proof.
+  induction fuel as [|fuel IH]; intros n acc H; cbn [dec_fuel]; [exact H|].
+  destruct (n / 10 =? 0)%N; [discriminate|]. apply IH. discriminate.
+Qed.
+
+Lemma itoa_ok i : forallb is_digit (itoa i) = true /\ itoa i <> [].
+Proof.
+  unfold itoa. split; [apply dec_fuel_digits; reflexivity|].
+  change 40%nat with (S 39). generalize 39%nat as fuel. intros fuel.
+  cbn [dec_fuel]. destruct (i / 10 =? 0)%N; [discriminate|]. apply dec_fuel_nonempty. discriminate.
+Qed.
+
+Lemma prefixb_app p s : prefixb p (p ++ s) = true.
+Proof. induction p as [|c p IH]; cbn; [reflexivity|]. rewrite IH. destruct (Ascii.eqb_spec c c); [reflexivity|congruence]. Qed.
+
+Lemma skipn_app_exact {A} (a b : list A) : skipn (List.length a) (a ++ b) = b.
+Proof. induction a; cbn; auto. Qed.
+
+Lemma nest_suffix_numbered f i : nest_suffix_ok f (f ++ "_"%char :: itoa i) = true.
+Proof.
+  unfold nest_suffix_ok. change (f ++ "_"%char :: itoa i) with (f ++ ["_"%char] ++ itoa i). rewrite app_assoc.
+  rewrite prefixb_app. cbn [andb].
+  replace (List.length f + 1)%nat with (List.length (f ++ ["_"%char])) by (rewrite app_length; reflexivity).
+  rewrite skipn_app_exact. destruct (itoa_ok i) as [H1 H2]. rewrite H1, andb_true_r.
+  destruct (itoa i); [congruence|reflexivity].
+Qed.
+
+Lemma number_from_all_match f ps : forall i, forallb (fun kv => nest_suffix_ok f (fst kv)) (number_from f i ps) = true.
+Proof. induction ps as [|p ps IH]; intros i; cbn [number_from forallb fst]; [reflexivity|]. rewrite nest_suffix_numbered. apply IH. Qed.
+
+Lemma number_from_values f ps : forall i, values (number_from f i ps) = ps.
+Proof. induction ps as [|p ps IH]; intros i; cbn; [reflexivity|]. f_equal. apply IH. Qed.
+
+Definition no_suffix_match (f : bytes) (r : record) : Prop := forall kv, In kv r -> nest_suffix_ok f (fst kv) = false.
+
+Lemma take_until_match_pre f pre rest :
+  no_suffix_match f pre ->
+  (match rest with [] => True | kv :: _ => nest_suffix_ok f (fst kv) = true end) ->
+  take_until_match f (pre ++ rest) = (pre, rest).
+Proof.
+  induction pre as [|[k x] pre IH]; intros H1 H2.
+  - destruct rest as [|[k x] rest]; [reflexivity|]. cbn [app take_until_match]. cbn [fst] in H2. now rewrite H2.
+  - cbn [app take_until_match]. pose proof (H1 (k, x) (or_introl eq_refl)) as Hk. cbn [fst] in Hk. rewrite Hk.
+    rewrite IH; auto. intros kv Hkv. apply H1. right. exact Hkv.
+Qed.
+
+Lemma filter_forallb_true {A} (p : A -> bool) l : forallb p l = true -> filter p l = l.
+Proof. intros H. apply filter_all_true. apply forallb_forall. exact H. Qed.
+
+Lemma filter_forallb_false {A} (p : A -> bool) l : forallb p l = true -> filter (fun x => negb (p x)) l = [].
+Proof.
+  induction l as [|x l IH]; cbn; intros H; [reflexivity|]. apply andb_true_iff in H. destruct H as [H1 H2]. rewrite H1. cbn. auto.
+Qed.
+
+Lemma drop_matching_numbered f (num post : record) :
+  forallb (fun kv => nest_suffix_ok f (fst kv)) num = true -> no_suffix_match f post -> drop_matching f (num ++ post) = post.
+Proof.
+  intros Hn Hp. induction num as [|[k x] num IH]; cbn [app drop_matching].
+  - destruct post as [|[k x] post]; [reflexivity|]. cbn [drop_matching].
+    pose proof (Hp (k, x) (or_introl eq_refl)) as H. cbn [fst] in H. now rewrite H.
+  - cbn [forallb fst] in Hn. apply andb_true_iff in Hn. destruct Hn as [H1 H2]. rewrite H1. apply IH. exact H2.
+Qed.
+
+Lemma implode_fields_numbered f sep pre ps post :
+  no_suffix_match f pre -> no_suffix_match f post -> ps <> [] -> (pre = [] -> ~ In f (keys post)) ->
+  implode_fields f sep (pre ++ number_from f 1 ps ++ post) = pre ++ (f, join_with [sep] ps) :: post.
+Proof.
+  intros Hpre Hpost Hps Hhead. unfold implode_fields.
+  rewrite take_until_match_pre; auto.
+  2:{ destruct ps as [|p ps]; [congruence|]. cbn [number_from app fst]. apply nest_suffix_numbered. }
+  cbv beta iota zeta. rewrite !filter_app.
+  match goal with |- context [@filter ?A ?p (number_from f 1 ps)] =>
+    assert (Q1 : @filter A p (number_from f 1 ps) = number_from f 1 ps)
+      by (apply filter_forallb_true; apply number_from_all_match) end.
+  match goal with |- context [@filter ?A ?p (number_from f 1 ps)] =>
+    assert (Q2 : @filter A p (number_from f 1 ps) = [])
+      by (apply (filter_forallb_false (fun kv : field => nest_suffix_ok f (fst kv))); apply number_from_all_match) end.
+  match goal with |- context [@filter ?A ?p post] =>
+    assert (P1 : @filter A p post = []) by (apply filter_all_false_; intros kv Hkv; apply Hpost; exact Hkv) end.
+  match goal with |- context [@filter ?A ?p post] =>
+    assert (P2 : @filter A p post = post)
+      by (apply filter_all_true; intros kv Hkv; cbv beta; rewrite (Hpost kv Hkv); reflexivity) end.
+  rewrite Q1, Q2, P1, P2, app_nil_r. cbn [app].
+  destruct (number_from f 1 ps) as [|m ms] eqn:E; [destruct ps; [congruence|discriminate]|]. rewrite <- E.
+  rewrite number_from_values.
+  destruct pre as [|q pre]; [|reflexivity].
+  cbn [app]. rewrite (drop_matching_numbered f _ post (number_from_all_match f ps 1) Hpost).
+  pose proof (take_until_match_pre f post [] Hpost I) as T. rewrite app_nil_r in T. rewrite T.
+  rewrite (proj2 (has_false_notin f post) (Hhead eq_refl)). reflexivity.
+Qed.
+
+Theorem explode_implode_fields f sep pre v post :
+  ~ In f (keys pre) -> no_suffix_match f pre -> no_suffix_match f post -> (pre = [] -> ~ In f (keys post)) ->
+  implode_fields f sep (explode_fields f sep (pre ++ (f, v) :: post)) = pre ++ (f, v) :: post.
+Proof.
+  intros H1 H2 H3 H4. rewrite explode_fields_shape by auto.
+  rewrite implode_fields_numbered; auto using split1_nonempty. now rewrite join_split1.
+Qed.
+
+(* ------------------------------------------------------------------ reorder -f: where the named fields go *)
+Lemma reorder_f_cons f fs r : reorder_f (f :: fs) r = move_to_head f (reorder_f fs r).
+Proof. unfold reorder_f. cbn [rev]. rewrite fold_left_app. reflexivity. Qed.
+
+Lemma pick_keys_incl names r k : In k (keys (pick names r)) -> In k names.
+Proof.
+  unfold pick. induction names as [|n names IH]; cbn; [auto|]. unfold keys. rewrite map_app, in_app_iff.
+  intros [H|H]; [|right; apply IH; exact H]. destruct (get n r); cbn in H; [destruct H as [<-|[]]; auto|contradiction].
+Qed.
+
+Lemma get_filter_keep (p : field -> bool) k r : (forall v, p (k, v) = true) -> get k (filter p r) = get k r.
+Proof.
+  intros Hp. induction r as [|[k' v'] r IH]; cbn; [reflexivity|].
+  destruct (beqb_spec k k') as [->|Hne].
+  - rewrite Hp. cbn. now rewrite beqb_refl.
+  - destruct (p (k', v')); cbn; [destruct (beqb_spec k k'); [congruence|]|]; exact IH.
+Qed.
+
+Lemma pick_cons f fs r : pick (f :: fs) r = (match get f r with Some v => [(f, v)] | None => [] end) ++ pick fs r.
+Proof. reflexivity. Qed.
+
+Theorem reorder_f_spec fs r : NoDup fs -> wf r -> reorder_f fs r = pick fs r ++ filter (unnamed fs) r.
+Proof.
+  intros Hnd Hwf. induction fs as [|f fs IH].
+  - cbn. symmetry. apply filter_all_true. reflexivity.
+  - inversion Hnd as [|? ? Hni Hnd']; subst. rewrite reorder_f_cons, (IH Hnd'). unfold move_to_head.
+    assert (Hpk : ~ In f (keys (pick fs r))) by (intros H; apply Hni; eapply pick_keys_incl; eauto).
+    assert (Hun : forall v, unnamed fs (f, v) = true).
+    { intros v. unfold unnamed. cbn. destruct (mem f fs) eqn:M; [apply mem_In in M; contradiction|reflexivity]. }
+    rewrite get_app. rewrite (proj2 (get_None_notin _ _) Hpk). rewrite (get_filter_keep _ _ _ Hun).
+    assert (E : filter (unnamed (f :: fs)) r = filter (fun kv => negb (beqb f (fst kv))) (filter (unnamed fs) r)).
+    { rewrite filter_filter. apply filter_ext. intros [k v]. unfold unnamed. cbn [fst]. rewrite mem_cons, (beqb_sym k f).
+      destruct (beqb f k), (mem k fs); reflexivity. }
+    rewrite pick_cons.
+    destruct (get f r) as [v|] eqn:G.
+    + rewrite remove_app_absent by exact Hpk. rewrite remove_filter by (apply wf_filter; exact Hwf). rewrite E. reflexivity.
+    + cbn [app]. f_equal. rewrite E. symmetry. apply filter_all_true. intros [k v] Hin. cbn.
+      apply negb_true_iff, beqb_false. intros ->. apply filter_In in Hin. destruct Hin as [Hin _].
+      apply (proj1 (get_None_notin _ _) G). apply (in_map fst) in Hin. exact Hin.
 Qed.
